@@ -45,6 +45,8 @@ func TestMain(m *testing.M) {
 			fmt.Sscanf(ms, "%d", &n)
 			time.Sleep(time.Duration(n) * time.Millisecond)
 		}
+		/* tell the driver that the hook is about to exit */
+		os.WriteFile(dump+".done", []byte("x"), 0o644)
 		if os.Getenv("VERIF_HOOK_FAIL") != "" {
 			os.Stdout.WriteString("hook failed on purpose\n")
 			os.Exit(7)
@@ -905,11 +907,21 @@ func TestVerifConc(t *testing.T) {
 			/* a slow media hook that is abandoned with Esc (or another key) before it exits; afterwards
 			   keys must still be handled: every one of them has to return */
 			os.Setenv("VERIF_HOOK_SLEEP_MS", "150")
+			os.Setenv("GORACE", "atexit_sleep_ms=0")
 			lc := &verifConc{verifSession: verifNewSession(w, out, sid, false)}
 			lc.s = NewState(80, 24, lc.callback)
 			if err := lc.s.Subcommand("open", w.h.URL(w.startA)); err == nil && lc.settle(8*time.Second) {
 				issued, returned := 0, int32(0)
+				modes := []string{}
 				press := func(b byte) {
+					defer func() {
+						if lc.s.m.TryLock() {
+							modes = append(modes, verifModes[lc.s.mode])
+							lc.s.m.Unlock()
+						} else {
+							modes = append(modes, "locked")
+						}
+					}()
 					issued++
 					done := make(chan struct{})
 					go func() { lc.s.Update(b); atomic.AddInt32(&returned, 1); close(done) }()
@@ -919,11 +931,25 @@ func TestVerifConc(t *testing.T) {
 					}
 				}
 				press('p')
-				press([]byte{27, 'h', ':'}[rng.Intn(3)])
-				time.Sleep(400 * time.Millisecond)
+				press([]byte{27, ':', 27}[rng.Intn(3)])
+				/* wait until the hook program has really run (it records itself when it starts), then for
+				   its exit to be noticed, before pressing further keys */
+				os.Remove(lc.dump + ".done")
+				for waited := 0; waited < 200; waited++ {
+					if _, err := os.Stat(lc.dump + ".done"); err == nil {
+						break
+					}
+					time.Sleep(50 * time.Millisecond)
+				}
+				os.Remove(lc.dump + ".done")
+				/* a race-instrumented hook binary lingers at exit (GORACE atexit_sleep_ms, switched off
+				   above for the child, defaults to a second); leave room for that as well */
+				time.Sleep(1500 * time.Millisecond)
 				press('z')
 				press(27)
-				out.Emit(verifkit.M{"ev": "liveness", "sid": sid, "scenario": "hook abandoned while running", "issued": issued, "returned": atomic.LoadInt32(&returned)})
+				_, statErr := os.Stat(lc.dump)
+				out.Emit(verifkit.M{"ev": "liveness", "sid": sid, "scenario": "hook abandoned while running", "issued": issued, "returned": atomic.LoadInt32(&returned),
+					"hook_ran": statErr == nil, "modes": modes})
 			}
 			os.Unsetenv("VERIF_HOOK_SLEEP_MS")
 			lc.hookCalls()
